@@ -68,6 +68,8 @@ TEMPLATES = {
     "nested_bool_literals": ("m: int", [], 'parse_s({"anyOf": [{"const": {"flags": [True, m], "deep": {"x": [[False]]}}}, {"enum": [[[True]], {"k": {"j": False}}, m]}], "properties": {"a": {"const": [[True, 1]]}}})', "Union[int, Dict[str, int], List[List[Union[int, bool]]]]", "(not isinstance({0}, dict) or (len({0}) <= 1 and all(k in ('a', 'b') for k in {0}))) and (not isinstance({0}, list) or (len({0}) <= 1 and all(len(x) <= 2 for x in {0})))"),
     "unique_nested_data": ("m: int", [], 'parse_s({"uniqueItems": True, "items": {"enum": [[True], [False, m], [[True]], [m]]}})', "List[List[Union[int, bool]]]", "len({0}) <= 2 and all(len(x) <= 1 for x in {0})"),
     "declared_allof_matches_pattern": ("mn: int", [], 'parse_s({"properties": {"ab": {"allOf": [{"minimum": mn}, {"type": "integer"}]}, "a": {"anyOf": [{"maximum": mn}, {"type": "null"}]}}, "patternProperties": {"^a": {"multipleOf": 2}}})', DV, DPRE1),
+    "multi_array_deps": ("mn: int", [], 'parse_s({"dependencies": {"a": ["b"], "b": ["a"], "ab": ["a", "b"], "a b": {"minProperties": mn % 3}}, "required": ["a"]})', DV, DPRE1),
+    "multi_array_deps_typed": ("mn: int", [], 'Object.inline("Dp", properties={"a": Property(Integer(minimum=mn))}, dependencies={"a": ["b"], "b": ["a"], "ab": ["zz"]})', DV, DPRE1),
     "pattern_deps": ("mn: int", [], 'parse_s({"patternProperties": {"^a": {"maximum": mn}}, "dependencies": {"a": ["b"], "b": {"minProperties": 2}}, "propertyNames": {"maxLength": 2}})', DV, DPRE1),
     "tuple_items": ("m: int", [], 'parse_s({"type": "array", "items": [{"type": "integer"}, {"minimum": m}], "additionalItems": {"type": "boolean"}, "uniqueItems": True})', LV, "len({0}) <= 3"),
     "items_of_objects": ("m: int", [], 'Array(Object.inline("It", properties={"a": Property(Integer(maximum=m), required=True)}), minItems=1)', "List[Dict[str, int]]", "len({0}) <= 2 and all(len(d) <= 1 and all(k in ('a', 'b') for k in d) for d in {0})"),
